@@ -278,3 +278,12 @@ package metadatapart
 //@ property C04
 //@ mode effects
 //@ frame
+
+// C01. Reading an object's parts one after the other loses nothing: the reader moves on to the next part only after a
+// read that delivered no bytes (a part reader may hand out its last bytes together with io.EOF), what a read delivered
+// is what the caller is told, and the end of one part is not the end of the object.
+//@ func (*lazyPartSequenceReadCloser).Read
+//@ mode effects
+//@ effect[C01:next-part-only-after-a-read-that-delivered-nothing] every loop_continues() where n == 0
+//@ effect[C01:delivered-bytes-are-reported] every returns() where result == n
+//@ effect[C01:part-read-into-the-callers-buffer] every io.ReadCloser($r).Read($q) where same($q, p)
